@@ -14,8 +14,8 @@ func TestSmoke(t *testing.T) {
 		Post:     &ChecksSpec{Actions: []ActionSpec{{Script: ok}}},
 		Deferred: &ChecksSpec{Actions: []ActionSpec{{Script: ok}}},
 		Blocks: []BlockSpec{{
-			Pre:  &ChecksSpec{Actions: []ActionSpec{{Script: ok, Ptr: true}}},
-			Cont: &ChecksSpec{Actions: []ActionSpec{{Script: ok}}, Delay: 1},
+			Pre:         &ChecksSpec{Actions: []ActionSpec{{Script: ok, Ptr: true}}},
+			Cont:        &ChecksSpec{Actions: []ActionSpec{{Script: ok}}, Delay: 1},
 			Concurrency: 2,
 			Seqs: []SeqSpec{
 				{Actions: []ActionSpec{{Script: []Step{{Out: OK, Gate: 2}}}, {Script: ok}}},
